@@ -309,6 +309,7 @@ def check(case):
             else:
                 h.fault_at = None       # the resumed call needed fewer calls than that: it simply completed (checked below as a resume)
         # ---- resume
+        n_before_resume = len(a)
         out2, err2 = h.integrate()
         if out2 != "ok":
             cause2 = getattr(err2, "__cause__", None)
@@ -318,6 +319,10 @@ def check(case):
             break
         sgn = 1.0 if case["tf"] > case["t0"] else -1.0
         viols += traj.trajectory_invariants(a, case["t0"], h.y0, [(0, len(a) - 1, case["tf"], sgn)], np.float64, dict(attrs, kind=kind), check_status=False)
+        if not viols and len(a) > n_before_resume and (not a.success or "failed" in a.integration_status or "not been run" in a.integration_status):
+            # the resumed call advanced the system and returned normally: the status is that of this call, not of the one that
+            # failed (a call that finds the system at its target already is a no-op and leaves the status alone)
+            viols.append(V("resume_status", "success={} status={!r}".format(a.success, a.integration_status), sig + kind, kind=kind, **attrs))
         if viols:
             viols[-1].msg = "after resuming from " + where + ": " + viols[-1].msg
             break
